@@ -118,8 +118,13 @@ mixed compile_object(string file) {
 mapping regnames;
 void regname(string t, string n) { if (!regnames) regnames = ([ ]); regnames[t] = n; }
 mapping query_regnames() { return regnames ? regnames : ([ ]); }
+#ifdef PRELOAD_LIST
+string *epilog(int eflag) { rec("EPILOG"); return PRELOAD_LIST; }
+void preload(string file) { rec("PRELOAD " + file); load_object(file); }
+#else
 string *epilog(int eflag) { return ({ }); }
 void preload(string file) { }
+#endif
 void log_error(string file, string msg) { rec("LOGERR " + file + " " + msg); }
 
 #ifndef NO_ERROR_HANDLER
